@@ -31,15 +31,21 @@ Spec == Init /\ [][Next]_vars
 
 SameRequest(a, b) == a.kind = b.kind /\ a.input = b.input /\ a.options = b.options
 
+(* The invariants compare the record added last with everything before it; a pair of records is
+   compared in the state in which the later one was added, so checking every state of the (single)
+   behaviour checks every pair. (Quantifying over all pairs in every state says the same and costs
+   a factor |hist| more.) *)
+New == IF l = 1 THEN {} ELSE {Abs(Rec[l - 1])}
+
 (* the output is a function of (input, options) for one and the same compiler *)
 FunctionalConsistency ==
-    \A a, b \in hist : SameRequest(a, b) /\ a.builder = b.builder /\ a.stage = b.stage => a.output = b.output
+    \A a \in New, b \in hist : SameRequest(a, b) /\ a.builder = b.builder /\ a.stage = b.stage => a.output = b.output
 
 (* the optimizing compiler reproduces itself: every build of it by an optimizing-compiler-built
    compiler (stage >= 2: built by stage 1, by stage 2, by a differently built stage 1) is the same,
    although the builders are different executables *)
 Bootstrap ==
-    \A a, b \in hist : a.stage >= 2 /\ b.stage >= 2 /\ SameRequest(a, b) => a.output = b.output
+    \A a \in New, b \in hist : a.stage >= 2 /\ b.stage >= 2 /\ SameRequest(a, b) => a.output = b.output
 
 (* acceptance: the whole file was consumed *)
 Progress == TLCSet(1, IF l > TLCGet(1) THEN l ELSE TLCGet(1))
